@@ -1,7 +1,4 @@
-"""NOT REGISTERED (see DESIGN 9.12): not confirmed within 400 s at these bounds (character-by-character tokenizer paths);
-kept as a starting point -- shrink to two groups / two keys or cube-split on (g0, g1, g2) as kernels/c04.py does with VF_K.
-
-E2 harnesses for C06: attribute groups in a module body reach the item they precede.
+"""E2 harnesses for C06: attribute groups in a module body reach the item they precede.
 
 Driven at the unit: the real VerilogParser.parse_module_body (with parse_star_property and parse_cable_declaration)
 reads a module body rendered by an independent writer from a symbolic structure; the token stream is the real
@@ -16,6 +13,7 @@ from spydrnet.parsers.verilog.parser import VerilogParser
 from spydrnet.parsers.verilog.tokenizer import VerilogTokenizerSimple
 
 QUICK = os.environ.get("VF_TIER", "quick") != "thorough"
+KFIX = int(os.environ.get("VF_K", "-1"))      # structure code g0 + 4*g1 + 16*g2 fixed by the job (cube split)
 
 
 def _body(text):
@@ -33,6 +31,7 @@ def _body(text):
 def h_attribute_groups_reach_the_item_they_precede(g0: int, g1: int, g2: int, m0: int, m1: int, m2: int, v: str) -> bool:
     """
     pre: 0 <= g0 <= 3 and 0 <= g1 <= 3 and 0 <= g2 <= 3
+    pre: KFIX < 0 or g0 + 4 * g1 + 16 * g2 == KFIX
     pre: 1 <= m0 <= 2 and 1 <= m1 <= 2 and 1 <= m2 <= 2
     pre: RX.fullmatch(v)
     pre: True  # EXCLUSIONS
